@@ -13,7 +13,7 @@ import os
 
 META = dict(
     id="C29",
-    specs=["H2Flow.tla", "H2FlowMC.tla", "H2FlowTrace.tla"],
+    specs=["H2Flow.tla", "H2FlowMC.tla", "H2FlowTrace.tla", "H2FlowImpl.tla", "H2FlowImplMC.tla"],
     technique="TLA+ spec of HTTP/2 send-side flow control (TLC exhaustive: window safety, per-stream order/completeness, liveness 'a sendable stream eventually sends' under fairness of the send loop) + TLC trace validation of real H2Connection executions driven by an h2 client (random stream sets, write sizes, WINDOW_UPDATE/SETTINGS schedules, scheduler interleavings), with the liveness clause checked at every quiescent point",
     level_text="TLC checks on the specification, for all interleavings of peer frames, application writes and server frames within the stated bounds, that no DATA frame exceeds the connection window, the stream window or the peer's maximum frame size, that each stream's frames carry the written bytes in order and END_STREAM comes only after all of them, and (temporal, under weak fairness of the send loop) that no stream stays sendable forever; every recorded execution of the real H2Connection is validated by TLC as a behaviour of that specification with every logged field matched, including that the scheduler never goes idle while a stream is sendable.",
     level_note="Trusted: TLC, the `h2`/`hpack`/`hyperframe` packages (peer state machine; DATA frames are additionally parsed from the raw bytes by the adapter), the adapter's content-offset projection. The `priority` package is absent from the image: /verif/vendor/priority is a round-robin stand-in providing only the calls _http2.py uses, so stream *scheduling order* is not that of the real package (the property does not constrain it). The reactor is a task.Clock stepped one delayed call at a time; client frames are delivered to the server immediately (no in-flight window updates). Not decided: request bodies / inbound flow control, RST_STREAM, priority frames, transport back-pressure (pauseProducing on the connection).",
@@ -25,13 +25,24 @@ MAGIC_WIN = 65535
 MAGIC_FRAME = 16384
 
 
+_CONTENT = {}
+
+
 def content(s, off, n):
-    """Position-coded stream content: 4-byte words (stream, word index)."""
-    first = off // 4
-    last = (off + n + 3) // 4
-    b = b"".join(((s & 0x7F) << 24 | (w & 0xFFFFFF)).to_bytes(4, "big") for w in range(first, last + 1))
-    lo = off - first * 4
-    return b[lo:lo + n]
+    """Position-coded stream content: 4-byte big-endian words (s tag, word index)."""
+    from array import array
+    import sys
+    need = off + n
+    buf = _CONTENT.get(s)
+    if buf is None or len(buf) < need:
+        words = max(1 << 16, (need + 3) // 4 * 2)
+        a = array("I", [(s & 0x7F) << 24 | (w & 0xFFFFFF) for w in range(words)])
+        if a.itemsize != 4:
+            raise RuntimeError("unexpected C int size")
+        if sys.byteorder == "little":
+            a.byteswap()
+        buf = _CONTENT[s] = a.tobytes()
+    return buf[off:off + n]
 
 
 class Harness:
@@ -157,18 +168,22 @@ class Harness:
                 moved = True
                 raw = b"".join(self.tr.out)
                 del self.tr.out[:]
-                logged += self.parse(raw)
-                try:
-                    self.cl.receive_data(raw)
-                except Exception as ex:        # the peer state machine refuses what the server sent
-                    # Flow-control refusals are not logged: the DATA frames themselves are in the trace and
-                    # the spec does the window arithmetic (h2 also refuses an *empty* END_STREAM DATA frame
-                    # on a negative inbound window, which RFC 7540 6.9.1 allows).  The trace ends here.
-                    if type(ex).__name__ != "FlowControlError":
-                        self.ev.append({"e": "h2error", "cls": type(ex).__name__})
-                    self.peer_refused = type(ex).__name__
-                    self.dead = True
-                    return logged
+                n, frames = self.parse(raw)
+                logged += n
+                # one frame per receive_data call: h2 re-reads its (acknowledged) max frame size only at the
+                # start of receive_data, so a SETTINGS ACK must not share a call with the DATA frame after it
+                for fr in frames:
+                    try:
+                        self.cl.receive_data(fr)
+                    except Exception as ex:    # the peer state machine refuses what the server sent
+                        # Flow-control refusals are not logged: the DATA frames themselves are in the trace and
+                        # the spec does the window arithmetic (h2 also refuses an *empty* END_STREAM DATA frame
+                        # on a negative inbound window, which RFC 7540 6.9.1 allows).  The trace ends here.
+                        if type(ex).__name__ != "FlowControlError":
+                            self.ev.append({"e": "h2error", "cls": type(ex).__name__})
+                        self.peer_refused = type(ex).__name__
+                        self.dead = True
+                        return logged
             if not moved:
                 break
         return logged
@@ -176,6 +191,7 @@ class Harness:
     def parse(self, raw):
         self.buf += raw
         n = 0
+        frames = []
         while len(self.buf) >= 9:
             ln = int.from_bytes(self.buf[0:3], "big")
             if len(self.buf) < 9 + ln:
@@ -183,6 +199,7 @@ class Harness:
             typ, flags = self.buf[3], self.buf[4]
             sid = int.from_bytes(self.buf[5:9], "big") & 0x7FFFFFFF
             payload = self.buf[9:9 + ln]
+            frames.append(self.buf[:9 + ln])
             self.buf = self.buf[9 + ln:]
             s = (sid + 1) // 2
             if typ == 0:       # DATA
@@ -215,7 +232,7 @@ class Harness:
             elif typ == 7:
                 self.ev.append({"e": "goaway"})
                 n += 1
-        return n
+        return n, frames
 
     def guarded(self, where, f, *a):
         try:
@@ -356,6 +373,19 @@ def gen_plan(rng, nops=None):
             # about END_STREAM before running, so it targets streams whose application has not finished)
             tgt = rng.choice([0] + live) if live else 0
             ops.append(["wu", tgt, rng.choice(INC if style != "tiny" else INC[:3])()])
+            # the resume clause is about what happens after a window opens: often look at it right away,
+            # with or without another stream's activity in between
+            if rng.random() < 0.5:
+                others = [s for s in live if s != tgt]
+                if others and rng.random() < 0.5:
+                    s2 = rng.choice(others)
+                    if rng.random() < 0.5:
+                        ops.append(["write", s2, rng.randint(1, 20)])
+                        written[s2] += 20
+                    else:
+                        finished.add(s2)
+                        ops.append(["finish", s2])
+                ops.append(["quiesce"])
         elif r < 0.76:
             iw = rng.choice(IW)
             mf = rng.choice(MF)
@@ -433,8 +463,9 @@ def fingerprint(trace, rej):
     if e["e"] == "quiesce":
         idle = [s for s in st["q"] if s not in st["ended"] and st["q"][s] > 0 and min(st["conn"], st["win"][s]) > 0]
         if idle:
-            how = sorted(set("%s/%s" % (st["opened_by"].get(s, "never-closed"), "loop-woken-since" if st["app_since"].get(s, True) else "loop-not-woken-since") for s in idle))
-            return "quiesce/stream-sendable-but-send-loop-idle/window-opened-by-" + "+".join(how)
+            s = min(idle)      # name the lowest idle stream only
+            return "quiesce/stream-sendable-but-send-loop-idle/window-opened-by-%s/%s" % (
+                st["opened_by"].get(s, "never-closed"), "loop-woken-since" if st["app_since"].get(s, True) else "loop-not-woken-since")
         return "quiesce/finished-stream-not-ended"
     if e["e"] == "data":
         s = e["s"]
@@ -448,24 +479,82 @@ def fingerprint(trace, rej):
 
 
 def mutate(t, rng):
+    """Corrupt one logged field / drop or duplicate one event (binding self-test).  Only complete traces
+    (ending in alldone) are used, so that every such corruption is necessarily inconsistent."""
     ev = t["ev"]
+    if not ev or ev[-1]["e"] != "alldone":
+        return None
     datas = [i for i, e in enumerate(ev) if e["e"] == "data" and e["n"] > 0]
+    if not datas:
+        return None
     r = rng.random()
-    if datas and r < 0.35:
+    if r < 0.3:
         ev[rng.choice(datas)]["off"] += 1            # content from another position
-    elif datas and r < 0.6:
+    elif r < 0.5:
         del ev[rng.choice(datas)]                     # a frame lost
-    elif datas and r < 0.8:
+    elif r < 0.7:
         i = rng.choice(datas)
         ev.insert(i, dict(ev[i]))                     # a frame duplicated
+    elif r < 0.85:
+        ws = [i for i, e in enumerate(ev) if e["e"] == "write"]
+        del ev[rng.choice(ws)]                        # bytes the application never wrote are sent
     else:
-        wus = [i for i, e in enumerate(ev) if e["e"] in ("wu",) and any(x["e"] == "data" for x in ev[i:])]
-        if not wus:
+        fs = [i for i, e in enumerate(ev) if e["e"] == "finish"]
+        if not fs:
             return None
-        del ev[wus[0]]                                # the window was never opened: later data overshoots
-        if not any(True for _ in ev):
-            return None
+        del ev[rng.choice(fs)]                        # END_STREAM without finish()
     return t
+
+
+UNIT = MAGIC_WIN // 3      # one model unit in bytes (the Impl model starts with a connection window of 3 units)
+
+
+def impl_layer(ctx):
+    """Impl layer (DESIGN 1.1): TLC model-checks the send scheduling *as coded* (H2FlowImpl.tla) against the
+    H2Flow properties.  A counterexample is only a statement about the model; it is replayed on the real
+    H2Connection and reported only if the real execution is itself rejected by the H2Flow trace spec."""
+    import re
+    from harness.core import parse_tla_value
+    out = []
+    for cfgname, kind in (("H2FlowImplLive.cfg", "liveness"), ("H2FlowImplSafe.cfg", "safety")):
+        r = ctx.mc("H2FlowImplMC", cfgname, must_pass=False, coverage=False, label="Impl layer as coded (%s)" % kind)
+        if r.ok:
+            ctx.log("Impl model satisfies the %s properties (%s)" % (kind, cfgname))
+            continue
+        steps = []
+        cfg0 = None
+        for blk in r.cex:
+            m = re.search(r"/\\ last = (\[[^\]]*\])", blk)
+            c = re.search(r"/\\ cfg = (\[[^\]]*\])", blk)
+            if c and cfg0 is None:
+                cfg0 = parse_tla_value(c.group(1))
+            if m:
+                steps.append(parse_tla_value(m.group(1)))
+        if not steps or cfg0 is None:
+            from harness.core import MachineryError
+            raise MachineryError("C29: cannot read the TLC counterexample of %s: %s" % (cfgname, r.error))
+        ops = [["settings", cfg0["initWin0"] * UNIT, cfg0["maxFrame0"] * UNIT]]
+        for st in steps:
+            e = st["e"]
+            if e == "open":
+                ops.append(["open", st["s"]])
+            elif e == "write":
+                ops.append(["write", st["s"], st["n"] * UNIT])
+            elif e == "finish":
+                ops.append(["finish", st["s"]])
+            elif e == "wu":
+                ops.append(["wu", st["s"], st["n"] * UNIT])
+            elif e == "settings":
+                ops.append(["settings", st["iw"] * UNIT, st["mf"] * UNIT])
+            elif e == "loop":
+                ops.append(["run", 1])
+        ops.append(["quiesce"])
+        t = run_plan(dict(ns=cfg0["ns"], ops=ops))
+        t["impl_cex"] = kind
+        out.append(t)
+        ctx.log("Impl model: TLC %s counterexample (%d steps) replayed on the real H2Connection: %d events" % (kind, len(steps), len(t["ev"])))
+    return out
+
 
 
 def report(ctx, traces, rej):
@@ -483,21 +572,26 @@ def run(ctx):
     r = ctx.mc("H2FlowMC", ctx.pick("H2FlowMC.cfg", "H2FlowMC.thorough.cfg"))
     if not r.ok:
         raise MachineryError("H2Flow spec violates its own properties: " + r.error)
-    ctx.require_actions("H2FlowMC", ["Open", "WindowUpdate", "Settings", "AppWrite", "AppFinish", "SendAny", "Quiesce"])
+    ctx.require_actions("H2FlowMC", ["MCOpen", "MCWindowUpdate", "MCSettings", "MCWrite", "MCFinish", "MCSend", "MCQuiesce"])
     # vacuity of the liveness property: without fairness of the send loop it must fail
     nf = ctx.mc("H2FlowMC", "H2FlowMCNoFair.cfg", must_pass=False, coverage=False, label="vacuity: Resume must fail without fairness")
     if nf.ok or nf.kind != "property":
         raise MachineryError("vacuity: liveness property Resume holds without fairness (%s)" % nf.kind)
     ctx.extra["liveness_vacuity_guard"] = "Resume violated in SpecNoFair as required"
 
-    n = ctx.pick(2500, 60000)
-    traces = [run_plan(gen_plan(ctx.rng)) for _ in range(n)]
+    impl_traces = impl_layer(ctx)
+    n = ctx.pick(1200, 40000)
+    traces = impl_traces + [run_plan(gen_plan(ctx.rng)) for _ in range(n)]
     ctx.log("recorded %d real executions, %d events" % (len(traces), sum(len(t["ev"]) for t in traces)))
     ctx.note_traces(traces)
     lean = [{"cfg": t["cfg"], "ev": t["ev"]} for t in traces]
     rej = ctx.validate("H2FlowTrace", lean, shard_size=ctx.pick(700, 4000))
     report(ctx, traces, rej)
     bad = {x.idx for x in rej}
+    # a TLC counterexample of the Impl model that the real code does not reproduce = the model drifted from the code
+    ctx.impl_drift = sum(1 for i in range(len(impl_traces)) if i not in bad)
+    ctx.extra["impl_counterexamples_replayed"] = len(impl_traces)
+    ctx.extra["impl_counterexamples_reproduced_on_real_code"] = len(impl_traces) - ctx.impl_drift
     good = [t for i, t in enumerate(lean) if i not in bad]
     ctx.extra["quiesce_events_checked"] = sum(1 for t in good for e in t["ev"] if e["e"] == "quiesce")
     ctx.extra["data_frames_checked"] = sum(1 for t in good for e in t["ev"] if e["e"] == "data")
